@@ -199,7 +199,7 @@ def cropErr : Crop.Err → String
 def permsOf (j : Json) : Crop.Perms := fun seed n =>
   ((getObj j "perms").getObjValAs? (List Nat) s!"{seed}:{n}").toOption.getD (List.range n)
 
-def lsJson (s : Crop.St Sym) : Json :=
+def lsJson (s : Crop.St (List Sym)) : Json :=
   match s.dir with
   | none => Json.null
   | some d => Json.mkObj [("b", toJson ((d.batches.map (·.1)).mergeSort (· ≤ ·))),
@@ -210,8 +210,20 @@ def failsOf (op : Json) : List Nat → Bool :=
   let fl := ((op.getObjValAs? (List (List Nat)) "fail").toOption).getD []
   fun loc => fl.contains loc
 
-def cropOp (P : Crop.Perms) (kind : Value.Val) (s : Crop.St Sym) (op : Json) : Crop.St Sym × Json :=
-  let f : List Nat → Sym := fun loc => Sym.r loc
+/-- placeholder of a symbolic result when there are `k` outputs (`k = 0`: a raw crop with one opaque result) -/
+def symNanLikeK (kind : Value.Val) (k : Nat) : Sym → Sym
+  | .c _ j => .m (Value.nanLike (outKind kind k j))
+  | .m v => .m (Value.nanLike v)
+  | .r _ => .m (Value.nanLike kind)
+
+partial def nestJsonL (kind : Value.Val) : Core.Nest (List Sym) → Json
+  | .leaf [x] => symJson kind x
+  | .leaf l => Json.arr (l.map (symJson kind)).toArray
+  | .node l => Json.arr (l.map (nestJsonL kind)).toArray
+
+def cropOp (P : Crop.Perms) (kind : Value.Val) (k : Nat) (s : Crop.St (List Sym)) (op : Json) : Crop.St (List Sym) × Json :=
+  let f : List Nat → List Sym := fun loc => if k == 0 then [Sym.r loc] else (List.range k).map (Sym.c loc)
+  let nlL : List Sym → List Sym := fun r => r.map (symNanLikeK kind k)
   match getStr op "op" with
   | "new" => (Crop.opNew s (optNat op "bs") (optNat op "nb") (getNat op "shuffle"), Json.null)
   | "reload" => (Crop.opNew s none none 0, Json.null)
@@ -262,8 +274,8 @@ def cropOp (P : Crop.Perms) (kind : Value.Val) (s : Crop.St Sym) (op : Json) : C
   | "reap" =>
     let o : Crop.ReapOpts := { allowIncomplete := getBool op "allow_incomplete", wait := getBool op "wait",
                                cleanUp := (op.getObjValAs? Bool "clean_up").toOption }
-    match Crop.reapRaw P (symNanLike kind) s o with
-    | .ok (s', out) => (s', Json.mkObj [("ok", nestJson kind out)])
+    match Crop.reapRaw P nlL s o with
+    | .ok (s', out) => (s', Json.mkObj [("ok", nestJsonL kind out)])
     | .error e =>
       -- a refused / failed reap may still have synced the object from disk
       let s' := if o.allowIncomplete || o.wait then s else (Crop.isReady s).1
@@ -271,10 +283,10 @@ def cropOp (P : Crop.Perms) (kind : Value.Val) (s : Crop.St Sym) (op : Json) : C
   | "reapf" =>
     let o : Crop.ReapOpts := { allowIncomplete := getBool op "allow_incomplete", wait := getBool op "wait",
                                cleanUp := (op.getObjValAs? Bool "clean_up").toOption }
-    let k : Crop.FarmerKind := match getStr op "kind" with
+    let fk : Crop.FarmerKind := match getStr op "kind" with
       | "runner" => .runner | "harvester" => .harvester | "sampler" => .sampler | _ => .raw
     let env : Crop.Env := { labelFails := getBool op "label_fails", deliverFails := getBool op "deliver_fails" }
-    let out := Crop.reapFarmer P (symNanLike kind) k env s o
+    let out := Crop.reapFarmer P nlL fk env s o
     let s' := match out.res with
       | .error (.gather _) => if o.allowIncomplete || o.wait then s else (Crop.isReady s).1
       | _ => out.st
@@ -287,14 +299,30 @@ def cropOp (P : Crop.Perms) (kind : Value.Val) (s : Crop.St Sym) (op : Json) : C
         | .ok _ => Json.str "none" | .error (.gather _) => Json.str "gather"
         | .error .label => Json.str "label" | .error .deliver => Json.str "deliver"),
       ("delivered", toJson out.delivered)])
+  | "reapds" =>
+    let o : Crop.ReapOpts := { allowIncomplete := getBool op "allow_incomplete", wait := getBool op "wait",
+                               cleanUp := (op.getObjValAs? Bool "clean_up").toOption }
+    let d := descOf (getObj op "desc")
+    let failed (e : Crop.Err) := (if o.allowIncomplete || o.wait then s else (Crop.isReady s).1, err (cropErr e))
+    if getBool op "to_df" then
+      match Crop.reapToDf P (symNanLikeK kind k) d s o with
+      | .error e => failed e
+      | .ok (s', rows) => (s', Json.mkObj [("rows", Json.arr (rows.map fun r =>
+          Json.mkObj [("loc", toJson r.loc), ("extra", toJson r.extra),
+                      ("outputs", Json.arr (r.outputs.map (symJson kind)).toArray)]).toArray)])
+    else
+      match Crop.reapToDs P (symNanLikeK kind k) (Sym.m (.scalar .nan)) d s o with
+      | .error e => failed e
+      | .ok (s', ds) => (s', Json.mkObj [("ds", dsJson kind ds)])
   | o => (s, err s!"bad-op {o}")
 
 def opCrop (j : Json) : Json :=
   let P := permsOf j
   let kind := valOfJson (getObj j "kind")
-  let (_, obs) := (getArr j "ops").foldl (fun (acc : Crop.St Sym × Array Json) op =>
-    let (s', o) := cropOp P kind acc.1 op
-    (s', acc.2.push (Json.mkObj [("o", o), ("ls", lsJson s')]))) (({} : Crop.St Sym), #[])
+  let k := getNat j "outputs"
+  let (_, obs) := (getArr j "ops").foldl (fun (acc : Crop.St (List Sym) × Array Json) op =>
+    let (s', o) := cropOp P kind k acc.1 op
+    (s', acc.2.push (Json.mkObj [("o", o), ("ls", lsJson s')]))) (({} : Crop.St (List Sym)), #[])
   Json.mkObj [("obs", Json.arr obs)]
 
 def handle (j : Json) : Json :=
